@@ -103,6 +103,15 @@ CHECKS = {
    note="Programs: the corpus only. Methods skipped (facts are reported by bare name). Channels sequential. The SA4023 clause follows from the facts and is not re-derived separately.",
    technique="bounded symbolic execution of go/ssa + SMT against natively computed facts, native replay",
    design="3/C15"),
+ "C16": dict(
+   level="translation_validation",
+   text="The real S1xxx and QF1xxx analyzers run natively over a corpus of trigger shapes (every relational operator, negations, mixed && / ||, side-effecting operands, loops, switches); every suggested fix is applied to a copy of the "
+        "enclosing function (edits in bounds, non-overlapping, result parses and type-checks: reported as violations otherwise) and the fixed function is executed symbolically next to the original on the same symbolic inputs: "
+        "results, panic outcome, stores through arguments and the trace of opaque calls must agree on every path.",
+   note="Behavioural and applies-cleanly clauses for the corpus only (60 fixes of 12 checks); the position clauses (line/column exist, end after start) are not covered; QF1009 excluded (not an equivalent rewrite). "
+        "Checks that need std calls in the rewrite (S1003, S1004, ...) are not in the corpus.",
+   technique="translation validation: real fixes applied + bounded symbolic execution (go/ssa) + SMT, native replay",
+   design="3/C16"),
 }
 
 NA = {
